@@ -327,32 +327,54 @@ func runC09(c *core.Ctx) {
 			ok = ok && d1 && c09siteAfterSuccess(re[0], er[0])
 		}
 		c.Check(ok, "Reset performs the seal path's effects", "T16b SiblingAgreement", rs.Pos(), "applyGenesis(epoch, validators); resetEpochStore(epoch); election.Reset(validators, FirstFrame)", "Reset does not persist the state, switch the epoch database and reset the election like the seal path does")
-		// applyGenesis persists (epoch, validators) and FirstFrame-1
+		// applyGenesis persists (epoch, validators) and FirstFrame-1: the object handed to each setter holds
+		// these values at the call, whether it was built by a composite literal or filled in field by field;
+		// the parameters are identified by the type of the field they fill
 		g := c.Fn("abft.Store.applyGenesis")
-		okE, okD := false, false
-		for _, a := range assignments(g) {
-			_, path := fieldPath(g, a.LHS)
-			if len(path) != 1 || a.RHS == nil {
-				continue
-			}
-			switch path[0] {
-			case "abft.EpochState.Epoch":
-				okE = okE || varOf(g, a.RHS) == g.Param(0)
-			case "abft.EpochState.Validators":
-				okE = okE && varOf(g, a.RHS) == g.Param(1) || varOf(g, a.RHS) == g.Param(1) && okE
-			case "abft.LastDecidedState.LastDecidedFrame":
-				l := core.Linearize(g.Info(), a.RHS, func(e ast.Expr) string {
-					if cst, ok := g.ObjOf(e).(*types.Const); ok && p.ObjName(cst) == "abft.FirstFrame" {
-						return "first"
-					}
-					return ""
-				})
-				// FirstFrame is a typed constant: the expression folds to a constant 0
-				okD = (len(l.Coef) == 0 && l.C.Int64() == 0) || (coefIs(l, "first", 1) && l.C.Int64() == -1)
+		pe, pv := g.Param(0), g.Param(1)
+		if fe, fv := p.Field("abft.EpochState.Epoch"), p.Field("abft.EpochState.Validators"); fe != nil && fv != nil && !types.Identical(fe.Type(), fv.Type()) {
+			if a, b := c09paramOfType(g, func(t types.Type) bool { return types.Identical(t, fe.Type()) }), c09paramOfType(g, func(t types.Type) bool { return types.Identical(t, fv.Type()) }); a != nil && b != nil {
+				pe, pv = a, b
 			}
 		}
-		setsE := len(g.CallsTo("abft.Store.SetEpochState")) == 1
-		setsD := len(g.CallsTo("abft.Store.SetLastDecidedState")) == 1
+		isParam := func(want *types.Var) func(c09fval) bool {
+			return func(fv c09fval) bool {
+				return want != nil && fv.E != nil && varOf(g, resolveLocal(g, fv.E)) == want
+			}
+		}
+		noFrame := func(fv c09fval) bool {
+			if fv.Zero {
+				first, known := c09constIntOf(g, "FirstFrame")
+				return known && first == 1
+			}
+			if fv.E == nil {
+				return false
+			}
+			l := core.Linearize(g.Info(), fv.E, func(e ast.Expr) string {
+				if cst, ok := g.ObjOf(e).(*types.Const); ok && p.ObjName(cst) == "abft.FirstFrame" {
+					return "first"
+				}
+				return ""
+			})
+			if l == nil {
+				return false
+			}
+			// FirstFrame is a typed constant: the expression folds to a constant 0
+			return (len(l.Coef) == 0 && l.C.Int64() == 0) || (coefIs(l, "first", 1) && l.C.Int64() == -1)
+		}
+		okE, okD := false, false
+		se, sd := g.CallsTo("abft.Store.SetEpochState"), g.CallsTo("abft.Store.SetLastDecidedState")
+		setsE, setsD := len(se) == 1, len(sd) == 1
+		if setsE && len(se[0].Call.Args) == 1 {
+			if fields, _, built := c09structAt(g, se[0].Call.Args[0], se[0].Pt); built {
+				okE = c09fieldAll(fields, "abft.EpochState.Epoch", isParam(pe)) && c09fieldAll(fields, "abft.EpochState.Validators", isParam(pv))
+			}
+		}
+		if setsD && len(sd[0].Call.Args) == 1 {
+			if fields, _, built := c09structAt(g, sd[0].Call.Args[0], sd[0].Pt); built {
+				okD = c09fieldAll(fields, "abft.LastDecidedState.LastDecidedFrame", noFrame)
+			}
+		}
 		c.Check(okE && okD && setsE && setsD, "applyGenesis persists the epoch state and 'no decided frames'", "T16b SiblingAgreement", g.Pos(), "EpochState{epoch, validators} and LastDecidedFrame = FirstFrame-1 are stored through the setters", "a reset instance does not start from (epoch, validators, no decided frames)")
 	})
 
